@@ -372,6 +372,7 @@ def Expr.ok : Expr → Prop
   | .sel e attrs _ ab b a => e.ok ∧ attrs ≠ [] ∧ (∀ x ∈ attrs, solidT x) ∧ cm ab = [] ∧ TrivOk b ∧ TrivOk a
   | .selOr e attrs _ ab d _ db b a =>
     e.ok ∧ attrs ≠ [] ∧ (∀ x ∈ attrs, solidT x) ∧ cm ab = [] ∧ d.ok ∧ cm db = [] ∧ TrivOk b ∧ TrivOk a
+  | .lam n bcc _ _ body b a => solidT n ∧ cm bcc = [] ∧ body.ok ∧ TrivOk b ∧ TrivOk a
 def allOk : List Expr → Prop
   | [] => True
   | e :: rest => e.ok ∧ allOk rest
@@ -406,6 +407,7 @@ def Expr.lexOut : Expr → Bool → List Lex
   | .sel e attrs _ _ b a, na => cm b ++ e.lexOut false ++ attrLex attrs ++ (if na then [] else cm a)
   | .selOr e attrs _ _ d _ _ b a, na =>
     cm b ++ e.lexOut false ++ attrLex attrs ++ [.tok ['o', 'r']] ++ d.lexOut false ++ (if na then [] else cm a)
+  | .lam n _ _ _ body b a, na => cm b ++ [.tok n, .tok [':']] ++ body.lexOut false ++ (if na then [] else cm a)
 def lexOutAll : List Expr → List Lex
   | [] => []
   | e :: rest => e.lexOut false ++ lexOutAll rest
@@ -530,6 +532,7 @@ theorem ok_after {e : Expr} (h : e.ok) : TrivOk e.after := by
   | asrt c bd x y b a => exact h.2.2.2.2.2
   | sel e ats g ab b a => exact h.2.2.2.2.2
   | selOr e ats g ab d dg db b a => exact h.2.2.2.2.2.2.2
+  | lam n c g k bd b a => exact h.2.2.2.2
 
 theorem ok_before {e : Expr} (h : e.ok) : TrivOk e.before := by
   cases e with
@@ -543,6 +546,7 @@ theorem ok_before {e : Expr} (h : e.ok) : TrivOk e.before := by
   | asrt c bd x y b a => exact h.2.2.2.2.1
   | sel e ats g ab b a => exact h.2.2.2.2.1
   | selOr e ats g ab d dg db b a => exact h.2.2.2.2.2.2.1
+  | lam n c g k bd b a => exact h.2.2.2.1
 
 theorem leafBefore_nil' (k : LeafKind) (t : Text) (i : Nat) (inl : Bool) : leafBefore k t [] i inl = [] := by
   unfold leafBefore; split
@@ -589,6 +593,9 @@ theorem rebuildAP_indent_split {e : Expr} (h : e.before = []) (na : Bool) (i : N
     simp only [Expr.before] at h; subst h
     simp [Expr.rebuildAP, addTriviaP, fmtP, fmtGoP, indentP]
   | selOr e ats g ab d dg db b a =>
+    simp only [Expr.before] at h; subst h
+    simp [Expr.rebuildAP, addTriviaP, fmtP, fmtGoP, indentP]
+  | lam n c g k bd b a =>
     simp only [Expr.before] at h; subst h
     simp [Expr.rebuildAP, addTriviaP, fmtP, fmtGoP, indentP]
   | asrt c bd x y b a =>
@@ -759,6 +766,7 @@ theorem rebuildAP_lex : (e : Expr) → e.ok → ∀ (na : Bool) (i : Nat) (b : B
       | asrt c bd x y b a => exact hv.2.2.2.2.2
       | sel e ats g ab b a => exact hv.2.2.2.2.2
       | selOr e ats g ab d dg db b a => exact hv.2.2.2.2.2.2.2
+      | lam n c g k bd b a => exact hv.2.2.2.2
     have hbt := bindingTailP_lex (trivOk_append hva (ite_nil_ok na ha)) i
     have hi := indentP_lex i b
     simp only [Expr.rebuildAP, Expr.lexOut]
@@ -949,6 +957,15 @@ theorem rebuildAP_lex : (e : Expr) → e.ok → ∀ (na : Bool) (i : Nat) (b : B
     have hatp := addTriviaP_lex hb (ite_nil_ok na ha) hcore.2 i b
     refine ⟨?_, hatp.2⟩
     rw [hatp.1, hcore.1]; simp [cm_ite_nil]
+  | .lam name bcc g k body before after, hok, na, i, b => by
+    obtain ⟨hn, _, hbd, hb, ha⟩ := hok
+    have ihb := rebuildAP_lex body hbd false i (k == 0)
+    simp only [Expr.rebuildAP, Expr.lexOut]
+    have hatp := addTriviaP_lex (core := [FP.tok name, FP.ws (lamColonPrefix bcc g i), FP.tok [':'], FP.ws (lamBreak k)] ++
+        body.rebuildAP false i (k == 0)) hb (ite_nil_ok na ha)
+      (solid_append (solid_cons (p := FP.tok name) hn (solid_wsc _ (solid_tokc ':' (by decide) (solid_wsc _ solid_nil)))) ihb.2) i b
+    refine ⟨?_, hatp.2⟩
+    rw [hatp.1]; simp [ihb.1, cm_ite_nil]
 theorem rebuildAllP_lex : (es : List Expr) → allOk es → ∀ (i : Nat) (b : Bool),
     ((rebuildAllP es i b).map lexOf).flatten = lexOutAll es ∧ ∀ x ∈ rebuildAllP es i b, Solid x
   | [], _, i, b => ⟨rfl, by intro x hx; cases hx⟩
@@ -973,6 +990,7 @@ theorem previewP_lex : (e : Expr) → e.ok → ∀ (i : Nat) (p : List FP), e.pr
   | .asrt .., _, i, p, h => by simp [Expr.previewP] at h
   | .sel .., _, i, p, h => by simp [Expr.previewP] at h
   | .selOr .., _, i, p, h => by simp [Expr.previewP] at h
+  | .lam .., _, i, p, h => by simp [Expr.previewP] at h
   | .list value ml inner before after, hok, i, p, h => by
     obtain ⟨hv, hin, hb, ha⟩ := hok
     have ih := fun i b => rebuildAllP_lex value hv i b
